@@ -45,6 +45,7 @@ def run(scn):
   loop = SimLoop.INSTANCE
   comb = scn['comb']
   history = []
+  inconsistent = []
 
   def watch(ar, label):
     """Record every observable state of `ar` after each step; once ready it
@@ -54,9 +55,12 @@ def run(scn):
     def snap():
       if not ar.ready():
         return None
-      if ar.exception is not None:
-        return ('exc', ar.exception)
-      return ('val', ar.value)
+      # what a late observer sees: get() raises iff not successful()
+      if ar.successful():
+        if ar.exception is not None:
+          inconsistent.append((label, ar.value, ar.exception))
+        return ('val', ar.value)
+      return ('exc', ar.exception)
     st['snap'] = snap
     return st
 
@@ -152,6 +156,8 @@ def run(scn):
     compare('end')
     if not any(s['ok'] for s in ins):
       REC.probe('all_failed')
+    if inconsistent:
+      REC.violation('C17', 'result_changed', '%s reports success %r while still carrying the failure %r' % inconsistent[0], {'comb': comb})
     REC.sample = {'comb': comb, 'inputs': ins, 'order': order}
     REC.state((comb, len(ins), tuple(s['ok'] for s in ins), tuple(s['pre'] for s in ins)))
     return
